@@ -88,6 +88,14 @@ def build(sym, last, arg=None):
         if g < 0 or g > 0xFFFF:
             return None
         return adv_bytes(ADV_ID, seal(g, g, iid, val)), dict(authentic=True, inner_ok=True, gsn=g, iid=iid, value8=val)
+    if sym.startswith("old:"):
+        # a genuine broadcast recorded long ago under the same key (absolute state number), replayed now
+        g = int(sym[4:])
+        if g > last:
+            return None
+        return adv_bytes(ADV_ID, seal(g, g, iid, val)), dict(authentic=True, inner_ok=True, gsn=g, iid=iid, value8=val)
+    if sym == "empty-payload":
+        return adv_bytes(ADV_ID, b""), dict(authentic=False, gsn=last + 1)
     g = last + 1
     if sym == "wrong-key":
         return adv_bytes(ADV_ID, seal(g, g, iid, val, key=WRONG_KEY)), dict(authentic=False, gsn=g)
@@ -121,7 +129,7 @@ def build(sym, last, arg=None):
     raise core.HarnessError(sym)
 
 
-SYMS = ["+1", "+2", "+50", "+99", "same", "-1", "-5", "+100", "+150", "wrong-key", "other-adv-id-aad", "other-header-id", "foreign-id-consistent", "inner-mismatch", "inner-mismatch-old", "unknown-iid"]
+SYMS = ["+1", "+2", "+50", "+99", "same", "-1", "-5", "+100", "+150", "wrong-key", "other-adv-id-aad", "other-header-id", "foreign-id-consistent", "inner-mismatch", "inner-mismatch-old", "unknown-iid", "old:0", "old:1", "old:40", "old:98", "empty-payload"]
 
 
 def _utf8(b):
@@ -252,7 +260,7 @@ def _flips(item, seed, tier):
 
 def run(ctx):
     quick = ctx.tier == "quick"
-    bases = [1, 300, 65000] if quick else [1, 2, 7, 99, 300, 40000, 65436, 65534]
+    bases = [1, 300, 65000, 65437, 65500, 65535] if quick else [1, 2, 7, 99, 300, 40000, 65436, 65437, 65438, 65500, 65534, 65535]
     depth = 2 if quick else 7
     work = [(b, depth, SYMS) for b in bases]
     ctx.pmap(_bfs, work)
